@@ -141,7 +141,7 @@ def apply_ds(l: xr.Dataset, r: xr.Dataset, v: str):
         if "im" in ds:
             im = ds["im"].data
             h, w = im.shape[-2:]
-            k = next(k for k in range(2, h * w) if (h * w) % k == 0 and k != w and (h * w) // k != h)
+            k = next(k for k in list(range(2, h * w)) + [1] if (h * w) % k == 0 and k != w and (h * w) // k != h)
             bands = [str(b) for b in ds.coords["band_im"].data] if im.ndim == 3 else None
             ds = build.image_dataset(np.ascontiguousarray(im).reshape(im.shape[:-2] + ((h * w) // k, k)), disp=None, bands=bands)
     return (ds, r) if side == "L" else (l, ds)
